@@ -226,7 +226,7 @@ pub fn run_with(rng: &mut Rng, n: usize, rep: &mut Report, lines: &mut Option<Ve
             rep.bump("cases");
             if r.is_ok() {
                 rep.bump("clone_ok");
-                if let Some(why) = incoherent(&s.w.bank(&h1.bank)) {
+                if let Some(why) = incoherent_with_caps(&s.w.bank(&h1.bank), &s.w.group(&s.group)) {
                     rep.fail(format!("clone-emode-unvalidated: lending_pool_clone_emode left the destination bank with an incoherent configuration: {}", why));
                 }
                 let (src, dst) = (s.w.bank(&h0.bank), s.w.bank(&h1.bank));
@@ -234,6 +234,56 @@ pub fn run_with(rng: &mut Rng, n: usize, rep: &mut Report, lines: &mut Option<Ve
                     rep.fail("lending_pool_clone_emode left the destination with a tag / entries that differ from the source's".to_string());
                 }
                 emode_flag_invariant(&dst, "lending_pool_clone_emode", rep);
+            }
+        }
+        // ---- directed: cloning high-weight entries onto a bank with LOWER liability weights must be refused whatever the history
+        //      of the two banks' e-mode settings is: destination never configured, configured earlier, configured in the very
+        //      same second as the source (two configure instructions in one transaction), already a clone of an older version
+        for variant in 0..4u64 {
+            let mut w2 = s.w.clone();
+            let opt = |li: i128, lm: i128| marginfi_type_crate::types::BankConfigOpt {
+                liability_weight_init: Some(I80F48::from_bits(li).into()),
+                liability_weight_maint: Some(I80F48::from_bits(lm).into()),
+                ..Default::default()
+            };
+            let entry = |tag: u16, wi: i128, wm: i128| {
+                let mut es = [EmodeEntry { collateral_bank_emode_tag: 0, flags: 0, pad0: [0; 5], asset_weight_init: I80F48::ZERO.into(), asset_weight_maint: I80F48::ZERO.into() }; 10];
+                es[9] = EmodeEntry { collateral_bank_emode_tag: tag, flags: 0, pad0: [0; 5], asset_weight_init: I80F48::from_bits(wi).into(), asset_weight_maint: I80F48::from_bits(wm).into() };
+                es
+            };
+            // clean slate for both banks' e-mode (fixture), then everything through the real instructions
+            for h in [h0, h1] {
+                let mut b = w2.bank(&h.bank);
+                b.emode = bytemuck::Zeroable::zeroed();
+                b.flags &= !marginfi_type_crate::constants::FREEZE_SETTINGS;
+                w2.set_bank(&h.bank, &b);
+            }
+            let hi = ONE + rng.below(ONE as u64 / 50) as i128; // the copied entry: 1.00 .. 1.02 (init), a little more (maint)
+            let ok_src = w2.exec(&ix::configure_bank(&h0, s.admin, opt(ONE * 13 / 10, ONE * 12 / 10))).is_ok()
+                && w2.exec(&ix::configure_bank(&h1, s.admin, opt(ONE + ONE / 20, ONE))).is_ok();
+            if !ok_src { continue; }
+            match variant {
+                0 => {} // destination never configured (timestamp 0)
+                1 => { let _ = w2.exec(&emode_ix(s.group, s.admin, h1.bank, 2, entry(3, ONE / 2, ONE * 6 / 10))); w2.advance(1 + rng.below(100_000) as i64); }
+                2 => { let _ = w2.exec(&emode_ix(s.group, s.admin, h1.bank, 2, entry(3, ONE / 2, ONE * 6 / 10))); } // same second as the source below
+                _ => {
+                    // destination is a clone of an OLDER, harmless version of the source's settings, source re-configured in the same second
+                    let _ = w2.exec(&emode_ix(s.group, s.admin, h0.bank, 1, entry(3, ONE / 2, ONE * 6 / 10)));
+                    let _ = w2.exec(&clone_emode_ix(s.group, s.admin, h0.bank, h1.bank));
+                }
+            }
+            if w2.exec(&emode_ix(s.group, s.admin, h0.bank, 1, entry(3, hi, hi + ONE / 40))).is_err() { rep.bump("clone_probe_source_refused"); continue; }
+            let r = w2.exec(&clone_emode_ix(s.group, s.admin, h0.bank, h1.bank));
+            cells += 1;
+            rep.bump("cases");
+            rep.bump("clone_probes");
+            if r.is_ok() {
+                let why = incoherent_with_caps(&w2.bank(&h1.bank), &w2.group(&s.group)).unwrap_or_else(|| "(no incoherence found by the independent predicate)".into());
+                let (src, dst) = (w2.bank(&h0.bank), w2.bank(&h1.bank));
+                rep.fail(format!(
+                    "clone-emode-unvalidated: lending_pool_clone_emode copied an entry of weight ({}, {}) onto a bank whose own liability weights are ({}, {}) [history variant {}: destination e-mode timestamp before the clone vs source {}]: {}",
+                    hi, hi + ONE / 40, w(dst.config.liability_weight_init), w(dst.config.liability_weight_maint), variant, src.emode.timestamp, why
+                ));
             }
         }
         // ---- directed: a bank that HOLDS a valid high-weight e-mode entry must not be allowed to lower its liability weights
